@@ -217,6 +217,53 @@ theorem runOps_sim (hh : headIsPop = true) (hd : startDetermined = true)
 
 theorem sim_init : Sim Tx.init Spec.init := ⟨clean_fresh, rfl, rfl, rfl, rfl, rfl, rfl⟩
 
+/-! ### members restored by scope guards -/
+
+/-- closed check 5: no statement of set-up / reset writes a guarded member, and the interpreter model (`havoc`)
+does not treat it as volatile -/
+def guardedUntouched : Bool :=
+  guardedIds.all fun m =>
+    !(touched setup).contains m && !(touched ensureReset).contains m && !volatileIds.contains m
+
+theorem afterTransform_guarded (hk : guardedUntouched = true) (t : Tx) (mid : State) (m : Nat) (hm : m ∈ guardedIds) :
+    (afterTransform t mid).mem m = t.mem m := by
+  have := List.all_eq_true.mp hk m hm
+  simp only [Bool.and_eq_true, Bool.not_eq_true', List.contains_eq_mem, decide_eq_false_iff_not] at this
+  obtain ⟨⟨h1, h2⟩, h3⟩ := this
+  unfold afterTransform
+  simp only
+  rw [run_frame ensureReset _ m h2]
+  have hv : volatileIds.contains m = false := by simpa using h3
+  simp only [havoc, hv]
+  exact run_frame setup _ m h1
+
+theorem step_guarded (hk : guardedUntouched = true) (t : Tx) (op : Op) (m : Nat) (hm : m ∈ guardedIds) :
+    (step t op).1.mem m = t.mem m := by
+  cases op with
+  | compile slot sheet ok => cases ok <;> rfl
+  | parse slot src ok => cases ok <;> rfl
+  | destroySheet slot => simp only [step]; cases t.sheets.lookup slot <;> rfl
+  | destroySource slot => simp only [step]; cases t.sources.lookup slot <;> rfl
+  | transform a b mid =>
+    simp only [step]
+    cases t.sheets.lookup a with
+    | none => rfl
+    | some _ =>
+      cases t.sources.lookup b with
+      | none => rfl
+      | some _ => exact afterTransform_guarded hk t mid m hm
+  | transformSrc a b mid => exact afterTransform_guarded hk t mid m hm
+  | _ => rfl
+
+theorem runOps_guarded (hk : guardedUntouched = true) (ops : List Op) (t : Tx) (m : Nat) (hm : m ∈ guardedIds) :
+    (runOps t ops).1.mem m = t.mem m := by
+  induction ops generalizing t with
+  | nil => rfl
+  | cons op ops ih =>
+    simp only [runOps]
+    rw [ih (step t op).1]
+    exact step_guarded hk t op m hm
+
 /-! ### parameters -/
 
 theorem putA_lookup_same {β : Type} (ps : List (String × β)) (k : String) (h : β) : (putA ps k h).lookup k = some h := by
